@@ -37,12 +37,13 @@ type St struct {
 }
 
 type Case struct {
-	N        int    `json:"n"` // numbers(N)
+	N        int    `json:"n"`            // numbers(N)
 	Slow     bool   `json:"slow_counter"` // the counting closure is slow for the first elements (parallel switch)
 	Stages   []St   `json:"stages"`
 	Consumer St     `json:"consumer"`
-	FailGap  int    `json:"fail_gap"` // >=0: the counting closure throws at source index D+window+FailGap
-	Unused   string `json:"unused,omitempty"` // "let": pipeline bound but not consumed; "return": returned lazily
+	FailGap  int    `json:"fail_gap"`            // >=0: the counting closure throws at source index D+window+FailGap
+	FailNear bool   `json:"fail_near,omitempty"` // the counting closure throws at source index D+FailGap: directly behind the decisive prefix, inside the read-ahead window
+	Unused   string `json:"unused,omitempty"`    // "let": pipeline bound but not consumed; "return": returned lazily
 }
 
 var e, a, b, l = Var("e"), Var("a"), Var("b"), Var("l")
@@ -218,6 +219,9 @@ func (c St) consume(recv *Expr) *Expr {
 		return MCall(MCall(recv, "top", Int(1)), "single")
 	case "contains":
 		return Bin("~", Int(c.A), MCall(recv, "map", lam("e", Bin("-", SCall("probe", e), Bin("%", e, Int(2))))))
+	case "containsAll":
+		// the list form of ~: every element of the left list occurs in the pipeline
+		return Bin("~", List(Int(c.A+2), Int(c.A)), MCall(recv, "map", lam("e", Bin("-", SCall("probe", e), Bin("%", e, Int(2))))))
 	case "multiUse":
 		return MCall(recv, "multiUse", Map([]string{"f", "t"}, []*Expr{lam("l", MCall(l, "first")), lam("l", MCall(MCall(l, "top", Int(c.A)), "size"))}))
 	}
@@ -284,6 +288,23 @@ func (c St) ideal(in iter, ahead bool) (ref.Value, bool) {
 				return ref.Bool(false), true
 			}
 			if v-v%2 == c.A {
+				return ref.Bool(true), true
+			}
+		}
+	case "containsAll":
+		f1, f2 := false, false
+		for {
+			v, ok := in()
+			if !ok {
+				return ref.Bool(false), true
+			}
+			if v-v%2 == c.A {
+				f1 = true
+			}
+			if v-v%2 == c.A+2 {
+				f2 = true
+			}
+			if f1 && f2 {
 				return ref.Bool(true), true
 			}
 		}
@@ -424,6 +445,11 @@ func check(c Case) (string, info) {
 		if c.Slow {
 			failAt += par
 		}
+		if c.FailNear {
+			// the first elements behind the decisive prefix: an evaluation may read them
+			// ahead, but their error belongs to a later element and must not be reported
+			failAt = d + c.FailGap
+		}
 	}
 	state.Reset()
 	state.CntLimit.Store(int64(d + window + par + 100000))
@@ -476,7 +502,7 @@ func check(c Case) (string, info) {
 			inf.skip = "F27"
 			return "", inf
 		}
-		return fmt.Sprintf("%s fails (%v), the decisive prefix evaluates to %s; a failing element behind the read-ahead window must not surface", where, got.Err, ref.Show(want)), inf
+		return fmt.Sprintf("%s fails (%v), the decisive prefix evaluates to %s; the error of an element behind the decisive one must not be reported", where, got.Err, ref.Show(want)), inf
 	}
 	if !ref.Same(want, got.Val, 0) {
 		return fmt.Sprintf("%s = %s, want %s", where, ref.Show(got.Val), ref.Show(want)), inf
@@ -485,7 +511,7 @@ func check(c Case) (string, info) {
 }
 
 var stageNames = []string{"accept", "skip", "top", "map", "combine", "number", "iir", "plus"}
-var consumers = []string{"first", "topSize", "topSum", "present", "indexWhere", "single", "contains", "multiUse"}
+var consumers = []string{"first", "topSize", "topSum", "present", "indexWhere", "single", "contains", "containsAll", "multiUse"}
 
 func TestPropC08(t *testing.T) {
 	defer evid.R.Flush()
@@ -518,11 +544,12 @@ func TestPropC08(t *testing.T) {
 			k = rapid.SampledFrom([]int{10, 11, 12, 13, 14, runtime.NumCPU() - 1, runtime.NumCPU(), runtime.NumCPU() + 1, 2 * runtime.NumCPU()}).Draw(t, "k2")
 		}
 		c.Consumer.A = k
-		if c.Consumer.Name == "contains" {
+		if c.Consumer.Name == "contains" || c.Consumer.Name == "containsAll" {
 			c.Consumer.A = 2 * (k / 2)
 		}
 		if rapid.IntRange(0, 2).Draw(t, "failing") == 0 {
 			c.FailGap = rapid.IntRange(0, 5).Draw(t, "failGap")
+			c.FailNear = rapid.Bool().Draw(t, "failNear")
 		}
 		switch rapid.IntRange(0, 11).Draw(t, "unused") {
 		case 0:
@@ -544,7 +571,9 @@ func TestPropC08(t *testing.T) {
 		if c.Unused != "" {
 			cls = append(cls, "pipeline_not_consumed")
 		}
-		if c.FailGap >= 0 {
+		if c.FailGap >= 0 && c.FailNear {
+			cls = append(cls, "failing_element_directly_behind_decisive_prefix")
+		} else if c.FailGap >= 0 {
 			cls = append(cls, "failing_element_behind_window")
 		}
 		if inf.parallel {
